@@ -26,6 +26,7 @@ int main() {
         vsched s;
         s.install();
         cocls::reusable_storage_mtsafe st;
+        cocls_verif::motable::get().label(&st, sizeof(st), "mtsafe_storage");
         int sum = 0;
         for (int t = 0; t < 2; t++) {
             s.spawn([&st, &sum, t] {
